@@ -560,6 +560,16 @@ def g_ttt(tier, seed):
                     ok = all(s[i] == t[j] for i, j in zip(a, b))
                     yield C("ttt", "tensor.ttt", "control" if ok else "size", r, [o, A_ints(a), A_ints(b)],
                             selfdims=list(a), otherdims=list(b), **info)
+            # contraction lists of different lengths pair nothing with something: ill-formed whatever the sizes
+            # (in particular when the unpaired mode is a singleton and broadcasting would let it through)
+            for a in itertools.permutations(range(len(s)), 2):
+                for j in range(len(t)):
+                    yield C("ttt", "tensor.ttt", "count", r, [o, A_ints(a), A_ints([j])], selfdims=list(a),
+                            otherdims=[j], **info)
+            for b in itertools.permutations(range(len(t)), 2):
+                for i in range(len(s)):
+                    yield C("ttt", "tensor.ttt", "count", r, [o, A_ints([i]), A_ints(b)], selfdims=[i],
+                            otherdims=list(b), **info)
             if s[-1] == t[-1]:
                 yield C("ttt", "tensor.ttt", "mode_neg", r, [o, -1, -1], selfdims=[-1], otherdims=[-1], **info)
                 yield C("ttt", "tensor.ttt", "mode_neg", r, [o, A_ints([-1]), A_ints([-1])], selfdims=[-1],
@@ -1161,6 +1171,11 @@ def g_inplace(tier, seed):
             sel = first + [n]
             need = sum(R if k == -1 else s[k] * R for k in first) + 2 * R
             yield C("inplace", op, "mode_oor", r, [A_ints(sel), A_vec(need)], modes=sel, length=need, **info)
+        # -1 designates the weights; any lower number designates nothing (and must not wrap around to a factor)
+        for sel in ([-2], [-2, -1], [-2, 0], [-n - 1], [-n - 1, -1]):
+            if sel == sorted(set(sel)):
+                need = sum(R if k == -1 else s[k % n] * R for k in sel)
+                yield C("inplace", op, "mode_neg", r, [A_ints(sel), A_vec(need)], modes=sel, length=need, **info)
         # arrange
         op = "ktensor.arrange"
         yield C("inplace", op, "control", r, [], {}, **info)
